@@ -395,6 +395,8 @@ fn permutations(n: usize, cap: usize) -> Vec<Vec<usize>> {
 /// ops of one way to build the project: an insertion order, optionally with a replace history
 fn build_ops(p: &[(String, String)], order: &[usize], replaced: bool) -> Vec<(String, String)> {
     let mut ops = Vec::new();
+    // files that come back without a tree (by convention of the project list)
+    let treeless = |i: usize| p[i].0.starts_with("broken") || p[i].0 == "garbage";
     if replaced {
         for i in order {
             ops.push((p[*i].0.clone(), "package zz; parcelable B {".to_string()));
@@ -402,12 +404,32 @@ fn build_ops(p: &[(String, String)], order: &[usize], replaced: bool) -> Vec<(St
         }
         // a validation in between (caches filled by validate() must not survive the replacements)
         ops.push(("#validate".to_string(), String::new()));
-        // the same text with the other line ending (same lines, other offsets)
+        // the same text with the other line ending (same lines, other offsets); the ids that end
+        // up without a tree keep their key-registering interim content for now
         for i in order {
+            if treeless(*i) {
+                continue;
+            }
             let t = &p[*i].1;
             let twin = if t.contains("\r\n") { t.replace("\r\n", "\n") } else { t.replace('\n', "\r\n") };
             ops.push((p[*i].0.clone(), twin));
         }
+        for i in order {
+            if !treeless(*i) {
+                ops.push((p[*i].0.clone(), p[*i].1.clone()));
+            }
+        }
+        // ... and receive their tree-less content last, right after another validation: the
+        // last operations of the history replace key-registering content by content without a tree
+        if order.iter().any(|i| treeless(*i)) {
+            ops.push(("#validate".to_string(), String::new()));
+        }
+        for i in order {
+            if treeless(*i) {
+                ops.push((p[*i].0.clone(), p[*i].1.clone()));
+            }
+        }
+        return ops;
     }
     for i in order {
         ops.push((p[*i].0.clone(), p[*i].1.clone()));
